@@ -58,6 +58,10 @@ def m1_pipeline(prop, tier, sims, gens, ops='list', laws=False, bin=False, owned
         shards += m1.record('gen-' + profile.replace(',', '_'), profile=profile, n=n, ops=ops, bin=clibin)
     for (tag, path) in extra_cases:
         shards += m1.record('x-' + tag, cases=path, ops=ops, bin=clibin)
+    # the reproducer of every OPEN known finding of this property is always replayed: its KNOWN-FINDING line is printed by
+    # every run on a tree that still has the defect, and disappears (without any edit of the findings file) once it is repaired
+    for fid, path in KNOWN_REPRODUCERS.get(prop, []):
+        shards += m1.record('known-' + fid, cases=os.path.join(vlib.VERIF, path), ops=ops, bin=clibin)
     res = vlib.validate_traces('ReplayTrace', shards)
     shards = res['shards']
     stats = m1.trace_stats(shards)
@@ -115,6 +119,9 @@ def m1_pipeline(prop, tier, sims, gens, ops='list', laws=False, bin=False, owned
           % (prop, tier, stats['counts'].get('worlds', 0), stats['distinct_worlds'], stats['distinct_nontrivial'], res['lines'],
              len(v.violations), time.time() - t0))
     return rc
+
+
+KNOWN_REPRODUCERS = {'C10': [('D10b', 'known/D10b.cases')], 'C17': [('D11', 'known/D11.cases')], 'C08': [('D8', 'known/D8.cases')]}
 
 
 def scale(tier, q, t):
